@@ -411,6 +411,14 @@ func sameProcessorMerge(c *ctx) string {
 	wg.Add(1)
 	go func() {
 		defer wg.Done()
+		defer func() {
+			if p := recover(); p != nil {
+				select {
+				case rerr <- fmt.Sprintf("reader: PANIC %v", p):
+				default:
+				}
+			}
+		}()
 		r := c.R.Fork()
 		for {
 			select {
